@@ -94,7 +94,13 @@ type ArrayV struct{ E []Value }
 type TupleV []Value
 
 // TimeV: abstract instant, nanoseconds since the Unix epoch as an Int term.
-type TimeV struct{ NS *Term }
+type TimeV struct {
+	NS *Term
+	// OffSec: the fixed offset (seconds east of UTC) of the value's location; 0 = UTC.
+	// Only constant offsets arise (from parsing a literal that carries one). It decides
+	// the wall-clock fields Format shows, never comparisons or arithmetic on instants.
+	OffSec int64
+}
 
 type Opaque struct {
 	What string
